@@ -397,6 +397,9 @@ def _plan(c, r):
         d = r.get("dp")
         if d and d[0] == 0:
             plan.append(("cert_dp", "c12.cert_alt", [alts, profile, len(d[2]), d[1], d[2]]))
+    if flags & F_DP:
+        # the mirrored dynamic programme (Model/ELPDP.v) on the same strict profile, at every size
+        plan.append(("elp", "c12.elp", [alts, [[c[0] for c in o] for o in profile]]))
     return plan
 
 
@@ -497,6 +500,10 @@ def _opt_judge(c, r, mres):
         if hi_a is not None and len(removed) > hi_a:
             return _mm("min_alt_del_correct", "k_alternative_deletion removes %d alternatives, but %d suffice (%s)" % (
                 len(removed), hi_a, "verified reference optimum" if mode == 1 else "planted certificate"))
+        m_axis, m_removed = M["elp"]
+        if len(m_removed) != len(removed):
+            return _mm("elp_sound / min_alt_del_correct", "k_alternative_deletion removes %d alternatives %r, the mirrored "
+                       "dynamic programme (Model/ELPDP.v) removes %d %r" % (len(removed), removed, len(m_removed), m_removed))
         if (flags & F_ALT) and r["alt"][1][0] != len(removed):
             return _mm("min_alt_del_correct", "alternative-deletion ILP (%d) and dynamic programme (%d) disagree on a strict profile"
                        % (r["alt"][1][0], len(removed)))
@@ -540,6 +547,10 @@ def _opt_stats(c, r, mres):
             lab += ["call alternative ILP", "alternative ILP %s opt %s" % (DT[dt], _bucket(r["alt"][1][0]))]
         if r.get("dp") and r["dp"][0] == 0:
             lab += ["call k_alternative_deletion", "k_alternative_deletion opt %s" % _bucket(len(r["dp"][2]))]
+            if "elp" in M:
+                same = (M["elp"][0] == r["dp"][1] and M["elp"][1] == r["dp"][2])
+                lab.append("mirror ELP: (axis, removed) %s" % ("identical" if same else "same size, different certificate"))
+                lab.append("mirror ELP m=%d" % len(alts))
     if any(len(o[0]) >= 2 for o in profile):
         lab.append("has tied top")
     return lab
